@@ -54,7 +54,40 @@ def _schedule(rng, n_a, n_b):
 
 
 # ---------------------------------------------------------------------------------- C18 (engine A)
+def c18_marathon(seed, run, tier):
+    """One long history on one dataset object: many hundreds of distinct requests, then early ones again
+    (bounded caches, eviction, counters - anything that only shows after a long time)."""
+    prof = dict(gen_data.PROFILE_C18, n_inputs=(2, 3), n_times=(4, 6), n_leadtimes=(3, 4), n_locations=(3, 4), p_big_dims=0.0,
+                p_subset=0.0, p_remap=0.0, p_dim_agg=0.0, p_keep_dim=1.0, faults=[], p_pit=0.0, p_ens=0.6, p_thr=0.7, p_q=0.5)
+    spec = gen_data.gen_spec("C18", seed, run, tier, prof)
+    rng = prng.stream(seed, "C18", run, "marathon")
+    info = gen_data.world_info(spec["world"])
+    n = rng.randint(650, 900) if tier == "quick" else rng.randint(700, 1600)
+    seen, ops = set(), []
+    guard = 0
+    while len(ops) < n and guard < 20 * n:
+        guard += 1
+        fields, single = gen_data.gen_fields(rng, info, prof)
+        axis = rng.choice(gen_data.ALL_AXES[2:17])
+        op = {"op": "req", "fields": fields, "single": single, "input": rng.randrange(info["n_inputs"]), "axis": axis,
+              "index": {"wrap": rng.randrange(0, 6)}, "client": 0}
+        key = json.dumps([op["fields"], op["single"], op["input"], op["axis"], op["index"]])
+        if key in seen:
+            continue
+        seen.add(key)
+        ops.append(op)
+    early = [dict(o) for o in ops[:60]]
+    rng.shuffle(early)
+    spec["ops"] = ops + early[:30]
+    spec["pre_ops"] = []
+    spec["pinned"] = True
+    spec["kind"] = "marathon"
+    return spec
+
+
 def c18_gen(seed, run, tier):
+    if run % 400 == 7:
+        return c18_marathon(seed, run, tier)
     spec = gen_data.gen_spec("C18", seed, run, tier, gen_data.PROFILE_C18)
     trng = prng.stream(seed, "C18", run, "tenant")
     if trng.random() < 0.2:
@@ -78,6 +111,9 @@ def c18_execute(spec, workdir):
     res["mode"] = ("pinned" if spec.get("pinned", True) else "unpinned") + ("+tenant" if spec.get("others") else "")
     if spec.get("others"):
         res["stats"]["probe:multi_tenant_runs"] = 1
+    if spec.get("kind") == "marathon":
+        res["stats"]["probe:marathon_runs"] = 1
+        res["mode"] = "marathon"
     if res["violation"] is not None and not spec.get("pinned", True):
         # classification (does the violation survive with the global RNG pinned?) needs a second
         # execution from pristine process state: requested from the runner, see c18_classify
@@ -377,6 +413,10 @@ def c18cli_execute(spec, workdir):
                 sig = "rng_dependent_result cli metric=%s" % engine_cli.metric_of(argv)
             v = {"step": v["step"], "kind": "rng_dependent_result", "detail": dict(v["detail"], unpinned_kind=v["kind"]),
                  "signature": sig}
+        elif v["kind"] in ("fresh_process_differs", "fresh_vs_session_differs"):
+            # inherently a cross-process effect: which of the two comparisons trips may itself vary from
+            # process to process, so both share one signature (the replay criterion is the signature)
+            v["signature"] = "cli output_differs_between_processes metric=%s" % engine_cli.metric_of(argv)
         else:
             v["signature"] = "cli %s metric=%s" % (v["kind"], engine_cli.metric_of(argv))
         res["violation"] = v
